@@ -113,11 +113,11 @@ def _constructor_start(ctx, Ps):
 def _pipeline_rows(ctx, Ps, comp):
     """the four fitting stages under P ranks: one row per function, row i refers to function i"""
     import numpy as np
-    lib = libgen.generate(ctx, "core_maths", list(range(1, comp + 1)), P=1, copy="c14_fit")
+    lib = libgen.generate(ctx, "core_maths", list(range(1, comp + 1)), P=1, copy="c14_fit%d" % comp)
     if not lib["ok"]:
         ctx.disagree("pipeline:generation", "could not generate the library for the stage runs: %s" % lib["res"]["error"])
         return 0
-    dd = os.path.join(ctx.tmp, "c14_data"); os.makedirs(dd, exist_ok=True)
+    dd = os.path.join(ctx.tmp, "c14_data%d" % comp); os.makedirs(dd, exist_ok=True)
     rs = np.random.default_rng(ctx.seed)
     x = np.linspace(0.5, 3, 25); s = np.full(25, 0.2); y = 1.5 * x + 0.7 + rs.normal(0, 0.2, 25)
     fitlib.write_data(os.path.join(dd, "d.txt"), x, y, s)
@@ -165,6 +165,17 @@ def _pipeline_rows(ctx, Ps, comp):
                     bad += 1
                     if bad <= 2:
                         ctx.fail("row-misaligned:negloglike:P=%d" % P, "negloglike row %d (P=%d) reports %.7g but function %d (%s) at the row's parameters gives %.7g" % (i, P, nl[i, 0], i, uniq[i], v), rp)
+        # the Fisher stage's row i carries function i's parameters (zeros where snapped)
+        cd = rows["codelen_comp%d_deriv.dat" % comp]
+        if cd.shape[0] == nuniq and nl.shape[0] == nuniq:
+            for i in range(nuniq):
+                if not np.isfinite(cd[i, 0]) or not np.isfinite(nl[i, 0]):
+                    continue
+                a, b = cd[i, 2:], nl[i, 1:]
+                m = a != 0
+                if m.any() and not np.allclose(a[m], b[m], rtol=1e-5, atol=1e-12):
+                    ctx.fail("row-misaligned:codelen:P=%d" % P, "codelen row %d (P=%d) carries parameters %s but function %d was fitted with %s" % (i, P, list(a), i, list(b)), rp)
+                    break
         # match index column must point at the unique function recorded in the library
         cm = rows["codelen_matches_comp%d.dat" % comp]
         matches = [int(float(t)) for t in libgen.read_lines(libgen.libfile(lib["dir"], comp, "matches")) if t.strip()]
@@ -183,7 +194,10 @@ def run(ctx):
     n1, b1 = _corr_split(ctx, 300 if deep else 150, 40 if deep else 24)
     n2, b2 = _corr_getfun(ctx, 120 if deep else 48, 40 if deep else 20)
     n3 = _constructor_start(ctx, [2, 3, 5] if deep else [2, 4])
+    # n=3: 14 unique / 24 functions (P > N cases); n=4: 24 unique / 64 functions, where with 11+ ranks several ranks
+    # numbered >= 10 own functions, so the ORDER in which the per-rank files are concatenated is observable
     n4 = _pipeline_rows(ctx, [1, 2, 3, 5, 16, 29] if deep else [1, 3, 17], 3)
+    n4 += _pipeline_rows(ctx, [12, 13, 23] if deep else [13], 4)
     ctx.extra["runs"] = dict(constructor_startups=n3, pipelines=n4)
     ctx.extra["corr_obligations"] = 2
     ctx.extra["corr_discharged"] = int(b1 == 0) + int(b2 == 0)
